@@ -57,6 +57,9 @@ def workloads(tier):
         "isobaric-cell-only-steps": {"driver": "Isobaric", "T": 2000.0, "P": 0.005, "cycles": 2, "atoms": {**gas, "triclinic": True}, "calc": {"kind": "soft"}, "table": [{"name": "c", "move": {"t": "C", "op": {"t": "Aniso", "mv": 0.03}, "scale": False}}, {"name": "s", "move": {"t": "C", "op": {"t": "Shape", "mv": 0.03}, "scale": False}, "probability": 0.5}, {"name": "d", "move": D(), "interval": 4}]},
         "isotension": {"driver": "Isotension", "T": 800.0, "P": 0.01, "S": [[0.01, 0.002, 0], [-0.001, 0.0, 0.003], [0, 0, -0.01]], "cycles": 3, "atoms": gas, "calc": {"kind": "soft"}, "table": [{"name": "c", "move": {"t": "C", "op": {"t": "Shape", "mv": 0.05}}}, {"name": "cd", "move": {"t": "+", "parts": [{"t": "C", "op": {"t": "Iso", "mv": 0.03}}, D("Box")]}, "criteria": "isotension"}, {"name": "d", "move": D("Box")}]},
         "grand-atomic": {"driver": "GrandCanonical", "T": 1500.0, "mu": -0.05, "cycles": 3, "species": 1, "accessible_volume_fraction": 0.3, "atoms": gas, "calc": {"kind": "soft"}, "table": [{"name": "x", "move": {"t": "E", "bias": 0.6}}, {"name": "d", "move": D(labelmod="gap", default_label=0)}, {"name": "b", "move": D("Box", default_label=-1)}]},
+        # a dilute box that runs empty and fills again (every label deleted, then insertions): whatever a move remembers
+        # beyond its label array must be in the file too
+        "grand-box-runs-empty": {"driver": "GrandCanonical", "T": 3000.0, "mu": 0.0, "cycles": 4, "species": 1, "atoms": {"kind": "gas", "n": 1, "edge": 7.0, "seed": 8}, "calc": {"kind": "ideal"}, "table": [{"name": "x", "move": {"t": "E", "bias": 0.45}, "criteria": "accept"}, {"name": "d", "move": D()}]},
         "grand-molecular": {"driver": "GrandCanonical", "ctor_defaults": True, "T": 2500.0, "mu": -0.02, "cycles": 3, "species": 2, "accessible_volume_fraction": 1.7, "atoms": mols, "calc": {"kind": "soft"}, "table": [{"name": "x", "move": {"t": "E", "op": {"t": "TranslationRotation"}, "labelmod": "rev"}}, {"name": "d", "move": {"t": "D", "op": {"t": "TranslationRotation"}}}, {"name": "r", "move": {"t": "D", "op": {"t": "Rotation"}, "labelmod": "someneg"}}]},
         "grand-composite": {"driver": "GrandCanonical", "T": 2500.0, "mu": 0.05, "cycles": 2, "species": 3, "atoms": mols3, "calc": {"kind": "soft"}, "table": [{"name": "x", "move": {"t": "E", "op": {"t": "TranslationRotation"}, "id": "e0"}}, {"name": "xx", "move": {"t": "*", "part": {"t": "E", "op": {"t": "TranslationRotation"}, "bias": 0.7}, "n": 2, "attrs": {"bias_towards_insert": 0.8}}, "criteria": "random:0.5"}, {"name": "dx", "move": {"t": "+", "parts": [D(), {"t": "E", "op": {"t": "TranslationRotation"}}]}, "criteria": "alternate"}, {"name": "same", "move": {"t": "ref", "id": "e0"}}]},
         "montecarlo-bare": {"driver": "MonteCarlo", "cycles": 2, "atoms": gas, "calc": {"kind": "soft"}, "table": [{"name": "p", "move": {"t": "P"}, "criteria": "random:0.5"}]},
